@@ -16,3 +16,6 @@ import SpoxModel.Props.C02
 #print axioms C02.build_returns_only_checked
 #print axioms C02.adapter_names_counterexample
 #print axioms C02.sibling_names_counterexample
+#print axioms C02.inline_arg_rank
+#print axioms C02.inline_scalar_boundary
+#print axioms C02.inline_rank_or_const_mismatch_refused
